@@ -104,22 +104,23 @@ class _Timeout(BaseException):
 
 def with_timeout(fn, secs=3):
     """Run fn() under a wall-clock limit; returns fn() or {"other": "Timeout"}.
-    (Nested inside the runner's per-case alarm: the previous alarm is restored.)"""
+    Nested inside the runner's per-case alarm: the outer timer is re-armed with
+    float precision (no drift), and fires with the outer handler."""
     import signal
     import time
 
     def h(signum, frame):
         raise _Timeout()
 
-    old = signal.signal(signal.SIGALRM, h)
-    remaining = signal.alarm(secs)
+    old_h = signal.signal(signal.SIGALRM, h)
+    old = signal.setitimer(signal.ITIMER_REAL, secs)[0]
     t0 = time.time()
     try:
         return fn()
     except _Timeout:
         return {"other": "Timeout"}
     finally:
-        signal.alarm(0)
-        signal.signal(signal.SIGALRM, old)
-        if remaining:
-            signal.alarm(max(1, int(remaining - (time.time() - t0))))
+        signal.setitimer(signal.ITIMER_REAL, 0)
+        signal.signal(signal.SIGALRM, old_h)
+        if old > 0:
+            signal.setitimer(signal.ITIMER_REAL, max(0.01, old - (time.time() - t0)))
